@@ -2,6 +2,7 @@
 import json
 import os
 import vlib
+from props import estlib
 import tr_pmhformulas
 from rustexpr import Untranslatable
 from props import pmhlib, setflib
@@ -12,7 +13,7 @@ PROPERTIES_MODULE = "Properties.C01"
 COQ_TARGETS = ["Properties/C01.vo", "Model/Dispatch.vo"]
 THEOREMS = ["C01_signature_is_argmin", "C01_pmh3_reaches_final", "C01_pmh3a_reaches_final", "C01_pmh2_reaches_final",
             "C01_slot_clock_exponential", "C01_rate_is_forced", "C01_beta_spacing", "C01_race_integral", "C01_race_limit",
-            "C01_single_set"]
+            "C01_single_set", "C01_estimator_is_match_fraction"]
 AXIOMS_ALLOWED = setflib.REAL_AXIOMS + ["ClassicalEpsilon.constructive_indefinite_description"]
 TRUSTED_BASE = [
     "translate/tr_pmhformulas.py: lambda = ln(m/(m-1)) (three constructors, guarded by m >= 2), betas[i] = m/(m-i-1), g[i-1] = m/(m-i), "
@@ -40,7 +41,7 @@ def translate(run):
     return True, ""
 
 
-TRANSLATORS = [("pmh-formulas", translate)]
+TRANSLATORS = [("pmh-formulas", translate), estlib.translator("EstPmh")]
 
 
 def correspond(run):
@@ -57,6 +58,7 @@ def correspond(run):
 
 
 def search(run):
+    estlib.search(run, "EstPmh")
     rc, js, out, err = vlib.harness(["pmh-mc", "--seed", run.seed, "--trials", 3000], timeout=3000)
     if rc != 0 or js is None:
         return
